@@ -434,6 +434,15 @@ theorem loadY_variable_eq_literal (c : Cfg) (hon : c.opts.skipInterpolation = fa
   rintro a b ⟨cfg', cfg, paths, h1, h2, hv, hd⟩
   exact ⟨cfg', cfg, paths, h1, h2, by rw [interpStage_variable c hon _ _ hv, interpStage_dollar_free c hon _ hd]⟩
 
+/-- non-vacuity of `VariableNode`, in general: every pair of trees related by `VariableDoc`, written out as (untagged) YAML
+document nodes, is related by `VariableNode` — so `loadY_variable_eq_literal` covers at least everything
+`load_variable_eq_literal` covers, and documents with `!reset` nodes besides -/
+theorem variableNode_of_trees (c : Cfg) (d' d : Val.KVs) (hv : VariableDoc c.interp.env d' d) (hd : DollarFree d) :
+    VariableNode c (nodeOf (.map d')) (nodeOf (.map d)) := by
+  have h' := nodeOf_spec (.map d')
+  have h := nodeOf_spec (.map d)
+  exact ⟨d', d, [], by rw [readDoc_untagged _ h'.1, h'.2], by rw [readDoc_untagged _ h.1, h.2], hv, hd⟩
+
 /-- with `SkipInterpolation`, `loadY` ignores the interpolation options as well -/
 theorem loadY_off_ignores_interp_options (c : Cfg) (hoff : c.opts.skipInterpolation = true) (i : Interp.Cfg)
     (files : List (List Reset.YNode)) : loadY (withInterp i c) files = loadY c files := by
